@@ -286,8 +286,17 @@ def run_case(case):
             if spec.get('min_start') is not None:
                 kw['min_start'] = from_us(spec['min_start'])
             for k, v in (spec.get('custom') or {}).items():
-                kw[k] = v
-            t = Task(spec['id'], spec.get('name', 't%d' % spec['id']), resource=spec.get('resource'),
+                # the value of a custom attribute may be anything, None and other falsy values included (the generator writes
+                # strings; which of them become None / 0 / False is decided here, from the string itself)
+                import zlib as _z
+                sel = _z.crc32(repr(v).encode()) % 4
+                kw[k] = None if sel == 0 else 0 if sel == 1 else v
+                if sel == 2:
+                    kw[k + '_flag'] = False
+            tid = spec['id']
+            if case.get('mixed_ids') and case.get('outcome_only') and len(objs) % 2:
+                tid = 'REQ-%d' % spec['id']          # ids are Union[int, str]: every second task carries a string id
+            t = Task(tid, spec.get('name', 't%d' % spec['id']), resource=spec.get('resource'),
                      start=from_us(spec.get('start')), end=from_us(spec.get('end')),
                      milestone=spec.get('milestone', False),
                      estimate=raw(spec, 'est'), spent=raw(spec, 'spent'), **kw)
